@@ -399,6 +399,8 @@ package s3db
 //@   modifies t.usesRowID, t.KeyCol, t.SchemaString, t.schema, t.ColumnIndexByName, t.ColumnNameByIndex
 //@   ensures imp(result == nil, t.SchemaString != "")
 
+//@ spec knownOption(k string) bool = k == "columns" || k == "entries_per_node" || k == "node_cache_entries" || k == "readonly" || k == "s3_bucket" || k == "s3_endpoint" || k == "s3_prefix"
+
 // New: never panics, rejects duplicated and unknown arguments, and registers
 // the table only on success (an error leaves the registry unchanged).
 //@ func New
@@ -410,10 +412,14 @@ package s3db
 //@   loop 1 modifies contents(seen), table.S3Options, table.usesRowID, table.KeyCol, table.SchemaString, table.schema, table.ColumnIndexByName, table.ColumnNameByIndex
 //@   ensures entries-per-node: forall j int :: imp(err == nil && 0 <= j && j < len(args) - 1 && splitKey(old(args[1:][j])) == "entries_per_node", result0.S3Options.EntriesPerNode == int(parseInt(splitVal(old(args[1:][j])), 0, 32)))
 //@   ensures node-cache-entries: forall j int :: imp(err == nil && 0 <= j && j < len(args) - 1 && splitKey(old(args[1:][j])) == "node_cache_entries", result0.S3Options.NodeCacheEntries == int(parseInt(splitVal(old(args[1:][j])), 0, 32)))
+//@   ensures unknown-rejected: forall j int :: imp(err == nil && 0 <= j && j < len(args) - 1, knownOption(splitKey(old(args[1:][j]))))
+//@   ensures duplicate-rejected: forall j int, k int :: imp(err == nil && 0 <= j && j < k && k < len(args) - 1, splitKey(old(args[1:][j])) != splitKey(old(args[1:][k])))
 //@   ensures readonly: forall j int :: imp(err == nil && 0 <= j && j < len(args) - 1 && splitKey(old(args[1:][j])) == "readonly", result0.S3Options.ReadOnly)
 //@   loop 1 invariant -1 <= rangeindex && rangeindex < len(args_cur) && table != nil && fresh(table) && table.Name == old(args[0])
 //@   loop 1 invariant len(args_cur) == len(args) - 1 && args_cur.arr == args.arr && args_cur.off == args.off + 1
 //@   loop 1 invariant forall j int :: imp(0 <= j && j <= rangeindex, has(seen, splitKey(args_cur[j])))
+//@   loop 1 invariant forall j int :: imp(0 <= j && j <= rangeindex, knownOption(splitKey(args_cur[j])))
+//@   loop 1 invariant forall j int, k int :: imp(0 <= j && j < k && k <= rangeindex, splitKey(args_cur[j]) != splitKey(args_cur[k]))
 //@   loop 1 invariant forall j int :: imp(0 <= j && j <= rangeindex && splitKey(args_cur[j]) == "entries_per_node", table.S3Options.EntriesPerNode == int(parseInt(splitVal(args_cur[j]), 0, 32)))
 //@   loop 1 invariant forall j int :: imp(0 <= j && j <= rangeindex && splitKey(args_cur[j]) == "node_cache_entries", table.S3Options.NodeCacheEntries == int(parseInt(splitVal(args_cur[j]), 0, 32)))
 //@   loop 1 invariant forall j int :: imp(0 <= j && j <= rangeindex && splitKey(args_cur[j]) == "readonly", table.S3Options.ReadOnly)
